@@ -76,7 +76,12 @@ def api_names():
     import pysnark.array as ar
     import pysnark.linalg as la
     import pysnark.pack as pk
-    return dict(PackBool=pk.PackBool, PackIntMod=pk.PackIntMod, PackList=pk.PackList, PackRepeat=pk.PackRepeat,
+    try:
+        import pysnark.poseidon_hash as ph
+        hashes = dict(poseidon_hash=ph.poseidon_hash)
+    except NotImplementedError:
+        hashes = {}          # the selected backend has no registered Poseidon parameters (snarkjs, qaptools)
+    return dict(**hashes, PackBool=pk.PackBool, PackIntMod=pk.PackIntMod, PackList=pk.PackList, PackRepeat=pk.PackRepeat,
                 PrivVal=rt.PrivVal, PubVal=rt.PubVal, ConstVal=rt.ConstVal, LinComb=rt.LinComb,
                 guarded=rt.guarded, PrivValBool=bo.PrivValBool, PubValBool=bo.PubValBool, LinCombBool=bo.LinCombBool,
                 PrivValFxp=fx.PrivValFxp, PubValFxp=fx.PubValFxp, LinCombFxp=fx.LinCombFxp,
@@ -141,7 +146,8 @@ INT_T = [
     ("sub_ss", "i", "{i} - {i}"), ("sub_sc", "i", "{i} - {K}"), ("sub_cs", "i", "{K} - {i}"),
     ("mul_ss", "i", "{i} * {i}"), ("mul_sc", "i", "{i} * {K}"), ("mul_cs", "i", "{K} * {i}"),
     ("neg", "i", "-{i}"), ("pos", "i", "+{i}"), ("abs", "i", "abs({i})"),
-    ("truediv_ss", "i", "{i} / {i}"), ("truediv_sc", "i", "{i} / {k}"), ("truediv_cs", "i", "{K} / {i}"),
+    ("truediv_ss", "i", "{i} / {i}"), ("truediv_sc", "i", "{i} / {k}"), ("truediv_cs", "i", "{K} / {i}"), ("truediv_sN", "i", "{i} / {N}"),
+    ("floordiv_sN", "i", "{i} // {N}"), ("mod_sN", "i", "{i} % {N}"),
     ("floordiv_ss", "i", "{i} // {i}"), ("floordiv_sc", "i", "{i} // {k}"), ("floordiv_cs", "i", "{K} // {i}"),
     ("mod_ss", "i", "{i} % {i}"), ("mod_sc", "i", "{i} % {k}"), ("mod_cs", "i", "{K} % {i}"),
     ("divmod_ss", "i", "divmod({i}, {i})[0] + divmod({i}, {k})[1]"),
@@ -224,7 +230,12 @@ ARRAY_T = [
     ("arr_set", None, "{a}[{i}] = {i}"), ("arr_set_c", None, "{a}[{i}] = {K}"), ("arr_set_k", None, "{a}[{z}] = {i}"),
 ]
 
-TEMPLATE_SETS = dict(int=INT_T, bool=BOOL_T, fxp=FXP_T, assert_=ASSERT_T, array=ARRAY_T)
+HASH_T = [
+    ("poseidon2", "i", "poseidon_hash([{i}, {i}])[0]"), ("poseidon5", "i", "poseidon_hash([{i}, {i}, {b}, {i}, {i}])[1] * 0 + {i}"),
+    ("poseidon_chain", "i", "poseidon_hash(poseidon_hash([{i}]))[3]"), ("poseidon_eq", "b", "poseidon_hash([{i}])[0] == poseidon_hash([{i}])[0]"),
+]
+
+TEMPLATE_SETS = dict(int=INT_T, bool=BOOL_T, fxp=FXP_T, assert_=ASSERT_T, array=ARRAY_T, hash=HASH_T)
 ALL_TEMPLATES = {t[0]: t for ts in TEMPLATE_SETS.values() for t in ts}
 
 
@@ -265,6 +276,8 @@ class Gen:
             return str(r.choice([1, 2, 3, 4, 5, 7, 8]))
         if slot == "K":
             return str(r.choice([0, 1, -1, 2, -2, 3, 5, -7, 10]))
+        if slot == "N":
+            return str(r.choice([-1, -2, -3, -4, -6, 2, 3]))
         if slot == "B":
             return r.choice(["0", "1", "True", "False"])
         if slot == "s":
